@@ -55,7 +55,7 @@ func names(steps []scenario) string {
 
 func runGetHeadHist(s *server, expected peer.ID, steps []scenario) []callResult {
 	out := make([]callResult, 0, len(steps))
-	syncer, err := sharedSync.NewSyncer(peer.AddrInfo{ID: expected, Addrs: []multiaddr.Multiaddr{s.maddr}})
+	syncer, err := syncFor(curOpt).NewSyncer(peer.AddrInfo{ID: expected, Addrs: []multiaddr.Multiaddr{s.maddr}})
 	if err != nil {
 		panic(err)
 	}
@@ -115,10 +115,10 @@ func doGetHeadHist(c *vlib.Ctx, keyType string, expected peer.ID, steps []scenar
 		}
 		terms = append(terms, fmt.Sprintf("(%s, %s)", resp, obsTerm(rs[i].kind, okTerm, 0)))
 	}
-	rp := &replayT{Kind: "gethist", Expected: peerStr(expected), Steps: stepsReplay(steps), Note: names(steps) + " (" + keyType + ")"}
+	rp := &replayT{Kind: "gethist", Expected: peerStr(expected), Steps: stepsReplay(steps), Note: names(steps) + " (" + keyType + ")", ClientOpt: curOpt}
 	c.Case("gethist", fmt.Sprintf("(GetHeadHist %s %s)", optPeerTerm(expected), vlib.CoqList(terms)),
 		map[string]interface{}{"history": names(steps), "key_type": keyType, "expected": peerStr(expected), "replay": rp})
-	c.Nontrivial("gethist/" + keyType + "/" + names(steps) + "/" + optPeerTerm(expected))
+	c.Nontrivial("gethist/" + curOpt + "/" + keyType + "/" + names(steps) + "/" + optPeerTerm(expected))
 	for i := range steps {
 		kind, desc := judgeGet(steps[i], expected, rs[i])
 		if kind == "" {
@@ -133,9 +133,9 @@ func doGetHeadHist(c *vlib.Ctx, keyType string, expected peer.ID, steps []scenar
 				min = cand
 			}
 		}
-		c.Fail(fmt.Sprintf("gethist:%s:%s:%s", kind, names(min), keyType),
-			fmt.Sprintf("step %d of a history on one Syncer: %s (history %s)", len(min), desc, names(min)),
-			&replayT{Kind: "gethist", Expected: peerStr(expected), Steps: stepsReplay(min), Note: names(min) + " (" + keyType + ")"})
+		c.Fail(fmt.Sprintf("gethist%s:%s:%s:%s", optTag(), kind, names(min), keyType),
+			fmt.Sprintf("step %d of a history on one Syncer%s: %s (history %s)", len(min), optTag(), desc, names(min)),
+			&replayT{Kind: "gethist", Expected: peerStr(expected), Steps: stepsReplay(min), Note: names(min) + " (" + keyType + ")", ClientOpt: curOpt})
 		return
 	}
 	sampleOnce(c, "gethist", map[string]interface{}{"level": "GetHead history on one Syncer", "history": names(steps), "key_type": keyType,
